@@ -83,7 +83,7 @@ def sock_cases(tier, rnd):
                     ["send", "ac_ctrl", "idem", "inline"],
                     ["send", "quick_timer", "nonidem", "inline"], ["adv", 3.0]])
     # --- random
-    n = 300 if tier == "quick" else 30000
+    n = 300 if tier == "quick" else 150000
     for _ in range(n):
         ops = [["q"]] if rnd.random() < 0.7 else []
         for _i in range(rnd.randint(1, 8)):
